@@ -191,6 +191,18 @@ func (r *Run) loaded(st *State, v Val, key, idx string) Val {
 	r.facts.Assert(sEq(n, v.S))
 	r.loadMemo[memo] = n
 	v.S = n
+	// closed entry heap: a location of an object that existed at entry, read from memory this
+	// function has not written on any path so far, refers to an object that existed at entry
+	entryMem := key != "" && !strings.HasPrefix(key, "g|") && r.get(st, key) == r.initial(key)
+	h0 := r.initial("g|$heap")
+	if entryMem && idx != "" {
+		switch v.K {
+		case KSlice:
+			r.facts.Assert(fmt.Sprintf("(=> (<= (root %s) %s) (<= (root (s_base %s)) %s))", idx, h0, v.S, h0))
+		case KRef, KPtr:
+			r.facts.Assert(fmt.Sprintf("(=> (<= (root %s) %s) (<= (root %s) %s))", idx, h0, v.S, h0))
+		}
+	}
 	switch v.K {
 	case KInt:
 		if lo, hi, ok := intRange(v.T); ok {
